@@ -356,7 +356,7 @@ def run(ctx):
     per = {}
     for backend in S.BACKENDS:
         _G["cfg"] = {"backend": backend, "K": 2, "KB": 2 if ctx.thorough else 1, "Ename": Ename}
-        agg, seen = engine.bfs(ctx, _expand, [()], label=backend, max_states=60000, cap_s=1800 if ctx.thorough else 240)
+        agg, seen = engine.bfs(ctx, _expand, [()], label=backend, max_states=60000, cap_s=5400 if ctx.thorough else 1800)
         per[backend] = {"states": agg.states, "transitions": agg.transitions, "max_depth": agg.max_depth}
         from mc.props.c02 import _merge
 
